@@ -326,7 +326,10 @@ def r7_creation(chk, classes):
                 key = f"{init0.key}:creation:{mv}"
                 allc = [x for t in list(pcs) + conds for x in conjuncts(t)]
                 asked = any(isinstance(t, ast.Name) and t.id == "overwrite" for t in allc)
+                # a look before the lock is harmless when the decision is made again while the lock is held
                 stale = [g for g in sites if inside and not any(x is g for x in ast.walk(inside[0]))]
+                if any(any(x is g for x in ast.walk(inside[0])) for g in sites if inside):
+                    stale = []
                 problems = []
                 if not inside:
                     problems.append("the file is created outside `with self._lock.write_lock()`")
